@@ -214,7 +214,7 @@ impl Monitor for C13 {
         ]
     }
     fn rule(&self) -> &'static str {
-        "seeded random histories over the five instantiate shapes (no minter / minter without cap / cap at, above, below the initial supply) with a minter-heavy op mix (Mint, UpdateMinter incl. to self, to former minters, to None, Burn re-opening room); after every call Minter and TokenInfo are compared with an independent (minter, cap, renounced) model; every fourth history is upgraded through the real migrate from an old version string, half of those on tokens with 11-45 extra holders: minter, cap and supply must survive. distinct = (operation kind, outcome, caller class minter/former/stranger, amount vs room below/equal/above/uncapped, renounced?, capped?)"
+        "seeded random histories over the five instantiate shapes (no minter / minter without cap / cap at, above, below the initial supply) with a minter-heavy op mix (Mint, UpdateMinter incl. to self, to former minters, to None, Burn re-opening room); after every call Minter and TokenInfo are compared with an independent (minter, cap, renounced) model, and the sum of the balances of every listed account may rise only by such a Mint, by exactly its amount, never above the cap; every fourth history is upgraded through the real migrate from an old version string, half of those on tokens with 11-45 extra holders: minter, cap and supply must survive. distinct = (operation kind, outcome, caller class minter/former/stranger, amount vs room below/equal/above/uncapped, renounced?, capped?)"
     }
     fn assumptions(&self) -> Vec<&'static str> {
         vec!["only executed histories are judged", "MockApi address validation is trusted"]
